@@ -545,6 +545,169 @@ fn case_soak(rng: &mut Rng, pools: &mut Pools, rep: &mut Report, case_no: u64) {
     }
 }
 
+// ------------------------------------------------------------------------------------------------
+// running() while a sibling of a panicked system is still inside run (seeded change C15k)
+// ------------------------------------------------------------------------------------------------
+
+/// Replay ids of the probe below (outside the range of generated cases).
+pub const SIB_CASE: u64 = 1 << 40;
+
+struct SibState {
+    entered: std::sync::atomic::AtomicU32,
+    left: std::sync::atomic::AtomicU32,
+    release: AtomicBool,
+    about_to_panic: AtomicBool,
+    gave_up: AtomicBool,
+}
+
+#[derive(Default)]
+struct SibRes<const I: usize>(u32);
+
+struct SibHeld<const I: usize>(Arc<SibState>);
+impl<'a, const I: usize> shred::System<'a> for SibHeld<I> {
+    type SystemData = shred::Write<'a, SibRes<I>>;
+    fn run(&mut self, mut d: Self::SystemData) {
+        d.0 += 1;
+        self.0.entered.fetch_add(1, SeqCst);
+        let dl = Instant::now() + Duration::from_secs(20);
+        while !self.0.release.load(SeqCst) && Instant::now() < dl {
+            std::thread::sleep(Duration::from_micros(200));
+        }
+        self.0.left.fetch_add(1, SeqCst);
+    }
+}
+
+struct SibFailing {
+    st: Arc<SibState>,
+    wait_for: u32,
+    payload: u32,
+}
+impl<'a> shred::System<'a> for SibFailing {
+    type SystemData = shred::Write<'a, SibRes<9>>;
+    fn run(&mut self, _: Self::SystemData) {
+        let dl = Instant::now() + Duration::from_secs(5);
+        while self.st.entered.load(SeqCst) < self.wait_for {
+            if Instant::now() > dl {
+                self.st.gave_up.store(true, SeqCst);
+                break;
+            }
+            std::thread::sleep(Duration::from_micros(200));
+        }
+        self.st.about_to_panic.store(true, SeqCst);
+        match self.payload {
+            0 => panic!("sibling probe: expected failure"),
+            1 => std::panic::panic_any(17u32),
+            _ => std::panic::panic_any(String::from("sibling probe: owned payload")),
+        }
+    }
+}
+
+/// One stage, `held + 1` groups: the failing system panics once all the others are inside `run`
+/// and stay there until the caller lets them go. Every answer of `running()` obtained while they
+/// are provably inside `run` (entered before the call, released only by the polling thread
+/// afterwards) must be `true`: the dispatch is running whatever happened to a sibling.
+#[cfg(feature = "parallel")]
+fn case_sibling(rep: &mut Report, variant: u64) {
+    use shred::{DispatcherBuilder, World};
+    install_quiet_hook();
+    let held = 1 + (variant % 3) as u32;
+    let fail_pos = ((variant / 3) % 4) as u32; // registration position of the failing system
+    let payload = ((variant / 12) % 3) as u32;
+    let poll_ms = [2u64, 10, 40][((variant / 36) % 3) as usize];
+    let st = Arc::new(SibState {
+        entered: Default::default(),
+        left: Default::default(),
+        release: AtomicBool::new(false),
+        about_to_panic: AtomicBool::new(false),
+        gave_up: AtomicBool::new(false),
+    });
+    let pool = crate::sys::make_pool(held as usize + 2);
+    let mut w = World::empty();
+    w.insert(SibRes::<0>(0));
+    w.insert(SibRes::<1>(0));
+    w.insert(SibRes::<2>(0));
+    w.insert(SibRes::<9>(0));
+    let mut b = DispatcherBuilder::new().with_pool(pool);
+    let mut added = 0u32;
+    let mut failing_added = false;
+    for pos in 0..=held {
+        if pos == fail_pos.min(held) && !failing_added {
+            b.add(SibFailing { st: st.clone(), wait_for: held, payload }, "failing", &[]);
+            failing_added = true;
+            continue;
+        }
+        match added {
+            0 => b.add(SibHeld::<0>(st.clone()), "", &[]),
+            1 => b.add(SibHeld::<1>(st.clone()), "", &[]),
+            _ => b.add(SibHeld::<2>(st.clone()), "", &[]),
+        }
+        added += 1;
+    }
+    let mut d = b.build_async(w);
+    d.dispatch();
+    // wait (bounded) for the failing system to reach its panic
+    let dl = Instant::now() + Duration::from_secs(8);
+    while !st.about_to_panic.load(SeqCst) && Instant::now() < dl {
+        std::thread::sleep(Duration::from_micros(300));
+    }
+    let mut polls = 0u32;
+    let mut bad: Option<String> = None;
+    let end = Instant::now() + Duration::from_millis(poll_ms);
+    let ready = st.about_to_panic.load(SeqCst) && !st.gave_up.load(SeqCst);
+    while ready && Instant::now() < end {
+        let inside_before = st.entered.load(SeqCst) == held && st.left.load(SeqCst) == 0;
+        let answer = std::panic::catch_unwind(std::panic::AssertUnwindSafe(|| d.running()));
+        let inside_after = st.left.load(SeqCst) == 0;
+        if inside_before && inside_after {
+            polls += 1;
+            match answer {
+                Ok(true) => {}
+                Ok(false) => bad = Some("running() returned false".into()),
+                Err(e) => bad = Some(format!("running() panicked ({})", payload_str(&*e))),
+            }
+        }
+        if bad.is_some() {
+            break;
+        }
+        std::thread::sleep(Duration::from_micros(150));
+    }
+    st.release.store(true, SeqCst);
+    // let the job end: the pool's handler receives the payload once every group was joined
+    let dl = Instant::now() + Duration::from_secs(10);
+    while st.left.load(SeqCst) < st.entered.load(SeqCst) && Instant::now() < dl {
+        std::thread::sleep(Duration::from_micros(300));
+    }
+    let mut handled = 0;
+    let dl = Instant::now() + Duration::from_secs(10);
+    while Instant::now() < dl {
+        handled += crate::sys::take_pool_panics().len();
+        if handled > 0 {
+            break;
+        }
+        std::thread::sleep(Duration::from_micros(300));
+    }
+    let _ = std::panic::catch_unwind(std::panic::AssertUnwindSafe(move || drop(d)));
+    let _ = take_panics();
+    if let Some(bad) = bad {
+        rep.violation(
+            "running_not_true_while_sibling_of_panicked_system_runs",
+            &format!(
+                "async dispatch, one stage with {} groups: a system panicked while {} sibling system(s) were still inside run (not yet released by the harness); {} - the dispatch is still running",
+                held + 1, held, bad
+            ),
+            SIB_CASE + variant,
+            J::Null,
+        );
+    }
+    if ready && polls > 0 {
+        rep.metric("running_polls_while_sibling_of_panicked_system_inside_run", polls as i64);
+        rep.metric("sibling_probe_pool_panics_handled", handled as i64);
+        rep.nontrivial(mix(0x15_0000 + variant, 0x51b));
+    } else {
+        rep.metric("sibling_probe_inconclusive", 1);
+    }
+}
+
 pub fn run(args: &Args) -> i32 {
     let mut rep = Report::new(args);
     let mut pools = Pools::new();
@@ -553,7 +716,24 @@ pub fn run(args: &Args) -> i32 {
         Some(c) => vec![c],
         None => (0..n).collect(),
     };
+    #[cfg(feature = "parallel")]
+    match args.case {
+        None => {
+            // 108 variants; each shard of a run walks a different window of them
+            let first = args.case_seed(0) % 108;
+            let many = if n > 20_000 { 108 } else { 12 };
+            for i in 0..many {
+                let v = (first + i) % 108;
+                guard_case(&mut rep, SIB_CASE + v, |rep| case_sibling(rep, v));
+            }
+        }
+        Some(c) if c >= SIB_CASE => guard_case(&mut rep, c, |rep| case_sibling(rep, c - SIB_CASE)),
+        _ => {}
+    }
     for c in range {
+        if c >= SIB_CASE {
+            continue;
+        }
         if rep.time_up() {
             break;
         }
